@@ -6,6 +6,8 @@ mod order;
 mod problems;
 mod dense;
 mod matrix;
+mod solout;
+mod monitors;
 
 fn main() {
     let args: Vec<String> = std::env::args().collect();
@@ -19,6 +21,9 @@ fn main() {
         "dense-check" => dense::run(rest),
         "xmatrix" => matrix::run(rest),
         "matrix-oracle" => matrix::oracle(rest),
+        "xsolout" => solout::run(rest),
+        "event-check" => monitors::events(rest),
+        "teval-check" => monitors::teval(rest),
         other => {
             eprintln!("unknown subcommand {other}");
             std::process::exit(2);
